@@ -531,6 +531,24 @@ func cmdCheck(args []string) int {
 		ev["trust_base_validation"] = tb
 		ev["violations"] = len(violations)
 	}
+	// bounded stand-ins for functions outside the reach of the contract language (labelled bounded; never counted as discharged)
+	if bs := runBoundedStandIns(*verif, *repo, *prop); len(bs) > 0 {
+		var recs []map[string]interface{}
+		for _, b := range bs {
+			recs = append(recs, map[string]interface{}{"label": "bounded", "stands_in_for": b.What, "test": b.Run, "file": b.File, "explored": b.Summary, "failed": b.Failed, "seconds": round3(b.Secs)})
+			if b.Failed {
+				os.MkdirAll(replayDir, 0o755)
+				rp := filepath.Join(replayDir, "bounded_"+sanitize(b.Run)+".json")
+				data, _ := json.MarshalIndent(map[string]interface{}{"obligation": "bounded/" + b.Run, "stands_in_for": b.What, "failing_input_found": true,
+					"note": "bounded stand-in (a Go test run against the real code); the output names the failing tree", "output": b.Output}, "", " ")
+				os.WriteFile(rp, data, 0o644)
+				violations = append(violations, fmt.Sprintf("VIOLATION property=%s replay=%s", *prop, rp))
+				fmt.Printf("FAILED-OBLIGATION bounded/%s :: %s\n", b.Run, truncate(strings.ReplaceAll(b.Output, "\n", " | "), 300))
+			}
+		}
+		ev["bounded_stand_ins"] = recs
+		ev["violations"] = len(violations)
+	}
 	if len(obls) == 0 {
 		fmt.Printf("VIOLATION property=%s replay=%s no-failing-input-found\n", *prop, "none")
 		fmt.Println("no obligations were generated for this property (vacuous check)")
